@@ -34,11 +34,11 @@ def mm_job(style, gran, k, s, pre, tier, timeout, arena=48, unwind=None):
       desc='%s, %d-byte slots, free history of %d nondet steps (request size in [min,%d] / recycle any live chunk)%s; initial arena %d slots (hook H1)' % (
           style, gran, k, s, (' after a shaped prefix of %d requests + nondet recycles' % pre) if pre else '', arena))
 for st in MM_UNITS:
-    mm_job(st, 4, 3, 8, 0, 'quick', 1500)
-    mm_job(st, 4, 4, 8, 0, 'thorough', 5400)
-    mm_job(st, 2, 3, 8, 0, 'thorough', 3000)
-    mm_job(st, 8, 3, 8, 0, 'thorough', 3000)
-    mm_job(st, 4, 2, 6, 3, 'thorough', 5400)
+    mm_job(st, 4, 2, 8, 0, 'quick', 1500)
+    mm_job(st, 4, 3, 8, 0, 'thorough', 5400)
+for st in ('orig_grid_style', 'freelist_style'):
+    mm_job(st, 2, 3, 8, 0, 'thorough', 5400)
+    mm_job(st, 8, 3, 8, 0, 'thorough', 5400)
 for g in (4, 8):
     J('C18', 'c18_malloc_g%d' % g, 'c18_mm.cc', 'c18_malloc', units=['memory_managers/malloc_style.cc', 'memory.cc', 'memstats.cc', 'error.cc'],
       defines={'GRAN': g, 'S': 8, 'MINSZ': 1, 'MALLOC_ONLY': 1}, gxx_units=['io.cc'], unwind=3, covers=[1], timeout=600,
@@ -57,18 +57,16 @@ J('C06', 'c06_address', 'c06_arrays.cc', 'c06_address', units=['arrays.cc', 'err
   desc='address_array: 3..5 cells, 3 nondet operations from {set(any 64-bit value), swap, expand, shrink}')
 J('C06', 'c06_level', 'c06_arrays.cc', 'c06_level', units=['arrays.cc', 'error.cc'], gxx_units=['io.cc'], unwind=12, covers=[1, 2, 3, 4], timeout=900,
   desc='level_array: any max_level in [1,2^31), 3 nondet operations from {set(any level in range), swap, expand}')
-for st in MM_UNITS:
-    mm_job(st, 4, 1, 8, 2, 'exp', 3000)
-    mm_job(st, 4, 1, 8, 3, 'exp', 3000)
 
 # ---------------------------------------------------------------- C05 (L1 kernels)
 C05_OPS = ['plus', 'minus', 'mult', 'div', 'mod', 'max', 'min', 'distmin']
 for k, nm in enumerate(C05_OPS):
-    J('C05', 'c05_mt_long_' + nm, 'c05_kernels.cc', 'c05_mt_long', units=['error.cc'], defines={'OP': k}, unwind=3, timeout=900, gxx_units=['ALL'],
+    J('C05', 'c05_mt_long_' + nm, 'c05_kernels.cc', 'c05_mt_long', units=['error.cc', 'edge_value.cc'], defines=dict({'OP': k}, **({'NO_COMMUTE': 1} if nm == 'mult' else {})), unwind=3, timeout=900, gxx_units=['ALL'], backend=('z3' if nm in ('mult', 'div', 'mod') else 'sat'),
       gxx_exclude=['operations/arith_%s.cc' % nm],
       covers=[3] + ([1] if nm in ('div', 'mod') else []) + ([2] if nm in ('plus', 'minus', 'mult') else []),
-      desc='MT integer policy mt_%s<long> from operations/arith_%s.cc: both operands any terminal value in [-2^30, 2^30)' % (nm, nm))
+      desc='MT integer policy mt_%s<long> from operations/arith_%s.cc: both operands any terminal value in %s' % (nm, nm, '[-2^30, 2^30)' + (' (bit-level commutativity of the 64-bit multiplier is not checked: no back end finishes it)' if nm == 'mult' else '')))
     if nm != 'mod':
-        J('C05', 'c05_mt_real_' + nm, 'c05_kernels.cc', 'c05_mt_real', units=['error.cc'], defines={'OP': k}, unwind=3, timeout=900, gxx_units=['ALL'],
+        J('C05', 'c05_mt_real_' + nm, 'c05_kernels.cc', 'c05_mt_real', units=['error.cc', 'edge_value.cc'], defines={'OP': k}, unwind=3, timeout=900, gxx_units=['ALL'], backend=('z3' if nm in ('mult', 'div') else 'sat'),
           gxx_exclude=['operations/arith_%s.cc' % nm], covers=[2] + ([1] if nm == 'div' else []),
           desc='MT real policy mt_%s<float>: both operands any finite real terminal (all non-NaN, non-inf float patterns through the handle encoding)' % nm)
+
